@@ -281,6 +281,8 @@ def apply(st, op):
     elif k == 'rename_source':
         old = T[op['t']]['file']
         T[op['t']]['file'] = op['file']
+        if op.get('base') is not None:
+            T[op['t']]['base'] = op['base']
         info['renames'].append((old, op['file']))
         info['edited'] = old
     elif k == 'del_source':
@@ -493,7 +495,10 @@ def gen_op(rng, st, kind, counters, p_special, allow_regen):
         cands = [t for t in sorted(T, key=int)]
         t = rng.choice(cands)
         counters['r'] += 1
-        return {'op': kind, 't': t, 'file': 'ren%s_%d%s' % (t, counters['r'], src_ext(st))}
+        op = {'op': kind, 't': t, 'file': 'ren%s_%d%s' % (t, counters['r'], src_ext(st))}
+        if rng.random() < 0.6:
+            op['base'] = _new_base(rng, T[t]['base'])      # renamed and edited
+        return op
     if kind == 'del_source':
         cands = [t for t in sorted(T, key=int) if t != '0']
         libs = [t for t in cands if T[t].get('lib')]
@@ -506,7 +511,7 @@ def gen_op(rng, st, kind, counters, p_special, allow_regen):
 
 
 WEIGHTS = [('mod_header', 5), ('mod_source', 2), ('add_header', 4), ('del_header', 3),
-           ('uninclude', 2), ('rm_header', 1), ('rename_header', 4), ('move_header', 1),
+           ('uninclude', 2), ('rm_header', 1), ('rename_header', 4), ('move_header', 3),
            ('noop', 3), ('clean', 1), ('add_source', 1), ('rename_source', 1),
            ('del_source', 1)]
 
